@@ -492,3 +492,88 @@ func vNthSiblingIndex() (int, []string) {
 //@   pure
 //@ func iface (selector.Sel).PseudoElement
 //@   pure
+
+//@ func iface (selector.Matcher).Match
+//@   pure
+
+// ---------------------------------------------------------------------------
+// structure of matching (Selectors 4 §3, §4, §15): a compound selector matches iff every simple
+// selector does (an empty one matches every element); a selector list iff some selector does;
+// child combinator: the element matches the right side and its parent the left side; :not / :is
+// negate / forward the list on elements only.
+//@ func (compoundSelector).Match
+//@   props C05
+//@   nopanic
+//@   requires n != nil && forall(k, 0, len(t.selectors), t.selectors[k] != nil)
+//@   modifies nothing
+//@   ensures len(t.selectors) == 0 ==> result == (n.Type == html.ElementNode)
+//@   ensures len(t.selectors) > 0 ==> result == forall(k, 0, len(t.selectors), t.selectors[k].Match(n))
+//@   loop 1 invariant rangeindex < len(t.selectors) && forall(k, 0, rangeindex + 1, t.selectors[k].Match(n))
+//@   loop 1 decreases len(t.selectors) - rangeindex
+
+//@ func (SelectorGroup).Match
+//@   props C05
+//@   nopanic
+//@   requires forall(k, 0, len(s), s[k] != nil)
+//@   modifies nothing
+//@   ensures result == exists(k, 0, len(s), s[k].Match(n))
+//@   loop 1 invariant rangeindex < len(s) && forall(k, 0, rangeindex + 1, !s[k].Match(n))
+//@   loop 1 decreases len(s) - rangeindex
+
+//@ func childMatch
+//@   props C05
+//@   nopanic
+//@   requires n != nil && a != nil && d != nil
+//@   modifies nothing
+//@   ensures result == (d.Match(n) && n.Parent != nil && a.Match(n.Parent))
+
+// the dispatch of a complex selector on its combinator
+//@ func (combinedSelector).Match
+//@   props C05
+//@   requires n != nil && (t.first != nil && t.combinator != 0 ==> t.second != nil)
+//@   modifies nothing
+//@   ensures t.first == nil ==> !result
+//@   ensures t.first != nil && t.combinator == 0 ==> result == t.first.Match(n)
+//@   call descendantMatch#1 assert t.combinator == ' ' && arg0 == t.first && arg1 == t.second && arg2 == n
+//@   call childMatch#1 assert t.combinator == '>' && arg0 == t.first && arg1 == t.second && arg2 == n
+//@   call siblingMatch#1 assert t.combinator == '+' && arg0 == t.first && arg1 == t.second && arg2 && arg3 == n
+//@   call siblingMatch#2 assert t.combinator == '~' && arg0 == t.first && arg1 == t.second && !arg2 && arg3 == n
+
+// a descendant / sibling combinator can only match an element that matches its right-hand side
+//@ func descendantMatch
+//@   props C05
+//@   requires n != nil && a != nil && d != nil
+//@   modifies nothing
+//@   ensures !d.Match(n) ==> !result
+//@   loop 1 invariant d.Match(n)
+//@ func siblingMatch
+//@   props C05
+//@   requires n != nil && s1 != nil && s2 != nil
+//@   modifies nothing
+//@   ensures !s2.Match(old(n)) ==> !result
+
+//@ func (relativePseudoClassSelector).Match
+//@   props C05
+//@   requires n != nil && forall(k, 0, len(s.match), s.match[k] != nil)
+//@   modifies anything
+//@   ensures old(n.Type) != html.ElementNode ==> !result
+//@   call Match#1 assert s.name == "is" && arg1 == n
+//@   call Match#2 assert s.name == "not" && arg1 == n
+//@   call hasDescendantMatch#1 assert s.name == "has" && arg0 == n
+//@   call hasChildMatch#1 assert s.name == "haschild" && arg0 == n
+
+// :root is the <html> element; form-control pseudo-classes apply to elements only
+//@ func (rootPseudoClassSelector).Match
+//@   props C05
+//@   nopanic
+//@   requires n != nil
+//@   ensures result == (n.Type == html.ElementNode && n.DataAtom == atom.Html)
+//@ func (neverMatchSelector).Match
+//@   props C05
+//@   nopanic
+//@   ensures !result
+//@ func (tagSelector).Match
+//@   props C05
+//@   nopanic
+//@   requires n != nil
+//@   ensures result == (n.Type == html.ElementNode && ((n.DataAtom != 0 && n.DataAtom == t.tag) || n.Data == t.tagS))
